@@ -1,8 +1,589 @@
 package jobs
 
-import "testing"
+// C10: every source entity reaches the transform exactly once per run, every
+// entity the transform returns reaches the sink in source order, an identity
+// transform makes the job a plain copy, and running it again adds no change to
+// the sink -- for every (entity count, batch size, parallelism).
+//
+// Each case builds a source dataset of distinct entities (each written once,
+// so "source order" is the source's change feed), a JavascriptTransform job
+// (incremental or fullsync) registered through Scheduler.AddJob and runs it
+// synchronously. All transforms are per-entity maps, so the expected sink
+// sequence is the flat map of the source feed, whatever the chunking.
+// Observation points:
+//   - the transform logs every input id through the documented Log() helper;
+//     the hub's logger captures these lines (multiset of inputs per run);
+//   - a recording Sink wrapper around the job's real sink records the exact
+//     sequence of entities handed to the sink;
+//   - the sink dataset's change feed and latest view.
+//
+// TestVerif_C10         exhaustive box m in 1..48 x p in 1..16 (x transforms), sharded
+// TestVerif_C10_sampled rapid-sampled larger cases (n<=300, batch size, p<=32, second wave)
+// TestVerifProbe_F08    minimal deterministic cases of finding F08
 
+import (
+	"context"
+	"encoding/json"
+	"fmt"
+	"math"
+	"os"
+	"sort"
+	"strings"
+	"testing"
+
+	"pgregory.net/rapid"
+
+	"github.com/mimiro-io/datahub/internal/server"
+	kit "github.com/mimiro-io/datahub/internal/verifkit"
+)
+
+const c10LogPrefix = "c10seen|"
+
+var c10Kinds = []string{"identity", "stamp", "dropodd", "dup", "create"}
+
+// c10Case is one generated case (JSON-serialisable: journal / replay).
+type c10Case struct {
+	N          int    `json:"n"`          // source entities present before run 1
+	K          int    `json:"k"`          // entities added before run 2 (0 = none)
+	Batch      int    `json:"batch"`      // job batchSize (0 = default 10000)
+	P          int    `json:"p"`          // transform Parallelism
+	Full       bool   `json:"full"`       // fullsync job type (else incremental)
+	LatestOnly bool   `json:"latestOnly"` // DatasetSource LatestOnly
+	Kind       string `json:"kind"`       // transform kind
+	WriteChunk int    `json:"writeChunk"` // source written in calls of this many entities (0 = one call)
+}
+
+// c10Code renders the JS of a transform kind. p is the store prefix used for
+// ids and property names. Every kind logs each input id first.
+func c10Code(kind, p string) string {
+	head := `function local(id) { return id.substring(id.indexOf(":") + 1); }
+function transform_entities(entities) {
+  var out = [];
+  for (var i = 0; i < entities.length; i++) {
+    var e = entities[i];
+    Log("` + c10LogPrefix + `" + GetId(e), "info");
+`
+	tail := `  }
+  return out;
+}`
+	switch kind {
+	case "identity":
+		// returns the very slice it was given
+		return `function transform_entities(entities) {
+  for (var i = 0; i < entities.length; i++) { Log("` + c10LogPrefix + `" + GetId(entities[i]), "info"); }
+  return entities;
+}`
+	case "stamp":
+		return head + `    var s = NewEntityFrom(e, false, true, true);
+    SetId(s, "` + p + `:s-" + local(GetId(e)));
+    SetProperty(s, "` + p + `", "src", GetId(e));
+    SetProperty(s, "` + p + `", "stamp", 1);
+    out.push(s);
+` + tail
+	case "dropodd":
+		return head + `    if (GetProperty(e, "` + p + `", "i", 0) % 2 == 0) { out.push(e); }
+` + tail
+	case "dup":
+		return head + `    out.push(e);
+    var d = NewEntityFrom(e, false, true, true);
+    SetId(d, GetId(e) + "-dup");
+    out.push(d);
+` + tail
+	case "create":
+		return head + `    var c = NewEntity();
+    SetId(c, "` + p + `:c-" + local(GetId(e)));
+    SetProperty(c, "` + p + `", "k", 7);
+    SetProperty(c, "` + p + `", "f", 2.5);
+    SetProperty(c, "` + p + `", "big", 12345678901);
+    SetProperty(c, "` + p + `", "arr", [1, 2, 3]);
+    SetProperty(c, "` + p + `", "name", "n-" + local(GetId(e)));
+    AddReference(c, "` + p + `", "from", GetId(e));
+    out.push(c);
+` + tail
+	}
+	panic("unknown kind " + kind)
+}
+
+// c10Model is the per-entity function of a kind, on observable content.
+func c10Model(kind, p string, e *kit.Ent) []*kit.Ent {
+	local := e.ID[strings.Index(e.ID, ":")+1:]
+	switch kind {
+	case "identity":
+		return []*kit.Ent{e.Clone()}
+	case "stamp":
+		s := e.Clone()
+		s.ID = p + ":s-" + local
+		s.Props[p+":src"] = e.ID
+		s.Props[p+":stamp"] = float64(1)
+		return []*kit.Ent{s}
+	case "dropodd":
+		if i, _ := e.Props[p+":i"].(float64); int(i)%2 == 0 {
+			return []*kit.Ent{e.Clone()}
+		}
+		return nil
+	case "dup":
+		d := e.Clone()
+		d.ID = e.ID + "-dup"
+		return []*kit.Ent{e.Clone(), d}
+	case "create":
+		return []*kit.Ent{{
+			ID: p + ":c-" + local,
+			Props: map[string]any{p + ":k": float64(7), p + ":f": 2.5, p + ":big": float64(12345678901),
+				p + ":arr": []any{float64(1), float64(2), float64(3)}, p + ":name": "n-" + local},
+			Refs: map[string]any{p + ":from": e.ID},
+		}}
+	}
+	panic("unknown kind " + kind)
+}
+
+// c10Source builds source entities number from..to-1.
+func c10Source(p string, from, to int) []*kit.Ent {
+	var out []*kit.Ent
+	for i := from; i < to; i++ {
+		e := &kit.Ent{
+			ID:    fmt.Sprintf("%s:e%d", p, i),
+			Props: map[string]any{p + ":i": i, p + ":h": float64(i) + 0.5, p + ":s": fmt.Sprintf("v%d", i)},
+			Refs:  map[string]any{},
+		}
+		if i%3 == 0 {
+			e.Refs[p+":next"] = fmt.Sprintf("%s:e%d", p, i+1)
+		}
+		if i%5 == 0 {
+			e.Props[p+":l"] = []any{i, "x", 1.25}
+		}
+		out = append(out, e)
+	}
+	return out
+}
+
+// c10RecSink records what reaches the sink and forwards to the job's sink.
+type c10RecSink struct {
+	inner Sink
+	seq   []*kit.Ent
+	calls int
+}
+
+func (s *c10RecSink) GetConfig() map[string]interface{} { return s.inner.GetConfig() }
+func (s *c10RecSink) processEntities(runner *Runner, entities []*server.Entity) error {
+	s.calls++
+	s.seq = append(s.seq, kit.FromEntities(entities)...)
+	return s.inner.processEntities(runner, entities)
+}
+func (s *c10RecSink) startFullSync(runner *Runner) error { return s.inner.startFullSync(runner) }
+func (s *c10RecSink) endFullSync(ctx context.Context, runner *Runner) error {
+	return s.inner.endFullSync(ctx, runner)
+}
+
+// c10F08Shape: input shape of finding F08 for one batch of m entities handed
+// to an incremental pipeline whose transform has parallelism p: the rounded
+// chunk size leaves a tail uncovered or puts a worker's start beyond the batch.
+func c10F08Shape(m, p int) bool {
+	if m <= 0 {
+		return false
+	}
+	if m < p {
+		p = 1
+	}
+	psize := int(math.Round(float64(m) / float64(p)))
+	return psize*p < m || (p-1)*psize > m
+}
+
+// c10BatchSizes lists the sizes of the non-empty batches a run over cnt new
+// source entities produces.
+func c10BatchSizes(cnt, batch int) []int {
+	if batch <= 0 {
+		batch = defaultBatchSize
+	}
+	var out []int
+	for cnt > 0 {
+		b := batch
+		if cnt < b {
+			b = cnt
+		}
+		out = append(out, b)
+		cnt -= b
+	}
+	return out
+}
+
+// c10Shape reports whether some batch of the case trips F08's input shape, and
+// whether the case is non-trivial (an incremental batch with p>=2 and m>=p).
+func c10Shape(c c10Case) (f08, nontrivial bool) {
+	if c.Full {
+		return false, false // the fullsync pipeline hands whole batches to the transform
+	}
+	var sizes []int
+	sizes = append(sizes, c10BatchSizes(c.N, c.Batch)...)
+	sizes = append(sizes, c10BatchSizes(c.K, c.Batch)...)
+	sizes = append(sizes, c10BatchSizes(c.N+c.K, c.Batch)...) // run after token reset
+	for _, m := range sizes {
+		if c10F08Shape(m, c.P) {
+			f08 = true
+		}
+		if c.P >= 2 && m >= c.P {
+			nontrivial = true
+		}
+	}
+	return
+}
+
+type c10Env struct {
+	h   *vjHub
+	seq int
+}
+
+func newC10Env() *c10Env { return &c10Env{h: newVJHub(vjOpts{CaptureLog: c10LogPrefix})} }
+
+func c10Keys(es []*kit.Ent) []string {
+	out := make([]string, len(es))
+	for i, e := range es {
+		out[i] = e.Key()
+	}
+	return out
+}
+
+func c10Diff(what string, got, want []string) string {
+	if len(got) != len(want) {
+		gi, wi := c10IDs(got), c10IDs(want)
+		return fmt.Sprintf("%s: %d entities, expected %d\n got ids:  %v\n want ids: %v", what, len(got), len(want), gi, wi)
+	}
+	for i := range got {
+		if got[i] != want[i] {
+			return fmt.Sprintf("%s: position %d differs\n got:  %s\n want: %s", what, i, got[i], want[i])
+		}
+	}
+	return ""
+}
+
+func c10IDs(keys []string) []string {
+	out := make([]string, len(keys))
+	for i, k := range keys {
+		var a []any
+		_ = json.Unmarshal([]byte(k), &a)
+		if len(a) > 0 {
+			out[i] = fmt.Sprint(a[0])
+		}
+	}
+	return out
+}
+
+// run executes the case; returns "" or the description of the violation.
+// infra != "" reports a harness problem (not a violation).
+func (env *c10Env) run(c c10Case) (problem, infra string) {
+	h := env.h
+	env.seq++
+	p := h.P[0]
+	src, sink, id := fmt.Sprintf("c10src%d", env.seq), fmt.Sprintf("c10sink%d", env.seq), fmt.Sprintf("c10job%d", env.seq)
+	h.createDataset(src)
+	h.createDataset(sink)
+	write := func(es []*kit.Ent) string {
+		ch := c.WriteChunk
+		if ch <= 0 {
+			ch = len(es)
+		}
+		for i := 0; i < len(es); i += ch {
+			j := i + ch
+			if j > len(es) {
+				j = len(es)
+			}
+			if err := h.write(src, es[i:j]); err != nil {
+				return fmt.Sprintf("source write failed: %v", err)
+			}
+		}
+		return ""
+	}
+	if s := write(c10Source(p, 0, c.N)); s != "" {
+		return "", s
+	}
+	jt := JobTypeIncremental
+	if c.Full {
+		jt = JobTypeFull
+	}
+	jobs, err := h.addJob(vjJobJSON(vjJob{ID: id, Source: vjDatasetSource(src, c.LatestOnly), Sink: vjDatasetSink(sink),
+		Transform: vjJSTransform(c10Code(c.Kind, p), c.P), BatchSize: c.Batch, JobType: jt}))
+	if err != nil || len(jobs) != 1 {
+		return "", fmt.Sprintf("scheduler rejected the job: %v", err)
+	}
+	defer func() { _ = h.Sched.DeleteJob(id) }()
+	j := jobs[0]
+	rec := &c10RecSink{inner: j.pipeline.spec().sink}
+	j.pipeline.spec().sink = rec
+
+	// one run: inputs = the source entities this run has to process (in
+	// source order); sinkBefore = sink feed before the run.
+	runNo := 0
+	oneRun := func(inputs []*kit.Ent, wantNewSink []*kit.Ent) string {
+		runNo++
+		tag := fmt.Sprintf("run %d", runNo)
+		h.takeLogs()
+		rec.seq, rec.calls = nil, 0
+		before, _ := h.changes(sink, 0)
+		res, pan := h.runJob(j)
+		if pan != nil {
+			return fmt.Sprintf("%s: job run panicked (the job runner re-panics: the hub process dies): %v", tag, pan)
+		}
+		if res == nil {
+			return tag + ": no job result stored"
+		}
+		if res.LastError != "" {
+			return fmt.Sprintf("%s: job failed: %s", tag, res.LastError)
+		}
+		if len(h.Runner.raffle.runningJobs) != 0 {
+			return tag + ": run slot not released"
+		}
+		// (1) every input passed to the transform exactly once
+		seen := map[string]int{}
+		for _, l := range h.takeLogs() {
+			seen[strings.TrimPrefix(l, c10LogPrefix)]++
+		}
+		var bad []string
+		for _, e := range inputs {
+			if seen[e.ID] != 1 {
+				bad = append(bad, fmt.Sprintf("%s x%d", e.ID, seen[e.ID]))
+			}
+			delete(seen, e.ID)
+		}
+		for k, v := range seen {
+			bad = append(bad, fmt.Sprintf("%s x%d (not an input of this run)", k, v))
+		}
+		if len(bad) > 0 {
+			sort.Strings(bad)
+			return fmt.Sprintf("%s: transform did not see each of the %d source entities exactly once: %v", tag, len(inputs), bad)
+		}
+		// (2) everything the transform returns reaches the sink in source order
+		var want []*kit.Ent
+		for _, e := range inputs {
+			want = append(want, c10Model(c.Kind, p, e)...)
+		}
+		if d := c10Diff(tag+": sequence handed to the sink", c10Keys(rec.seq), c10Keys(want)); d != "" {
+			return d
+		}
+		// (3) sink dataset: change feed grows by exactly the expected new versions, in order
+		after, _ := h.changes(sink, 0)
+		if len(after) < len(before) {
+			return fmt.Sprintf("%s: sink feed shrank from %d to %d", tag, len(before), len(after))
+		}
+		if d := c10Diff(tag+": sink change feed (old part)", c10Keys(after[:len(before)]), c10Keys(before)); d != "" {
+			return d
+		}
+		if d := c10Diff(tag+": new sink changes", c10Keys(after[len(before):]), c10Keys(wantNewSink)); d != "" {
+			return d
+		}
+		return ""
+	}
+	flat := func(inputs []*kit.Ent) []*kit.Ent {
+		var out []*kit.Ent
+		for _, e := range inputs {
+			out = append(out, c10Model(c.Kind, p, e)...)
+		}
+		return out
+	}
+	copyCheck := func(tag string) string {
+		if c.Kind != "identity" {
+			return ""
+		}
+		a, b := c10Keys(h.latest(src)), c10Keys(h.latest(sink))
+		sort.Strings(a)
+		sort.Strings(b)
+		return c10Diff(tag+": identity transform, sink latest view vs source latest view", b, a)
+	}
+
+	feed1, _ := h.changes(src, 0)
+	if len(feed1) != c.N {
+		return "", fmt.Sprintf("source feed has %d entries, wrote %d", len(feed1), c.N)
+	}
+	// run 1: everything
+	if s := oneRun(feed1, flat(feed1)); s != "" {
+		return s, ""
+	}
+	if s := copyCheck("after run 1"); s != "" {
+		return s, ""
+	}
+	all := feed1
+	if c.K > 0 {
+		if s := write(c10Source(p, c.N, c.N+c.K)); s != "" {
+			return "", s
+		}
+		all, _ = h.changes(src, 0)
+		if len(all) != c.N+c.K {
+			return "", fmt.Sprintf("source feed has %d entries, wrote %d", len(all), c.N+c.K)
+		}
+		inputs := all[c.N:]
+		if c.Full {
+			inputs = all
+		}
+		if s := oneRun(inputs, flat(all[c.N:])); s != "" {
+			return s, ""
+		}
+		if s := copyCheck("after run 2"); s != "" {
+			return s, ""
+		}
+	}
+	// run again with nothing new: no new change in the sink
+	var inputs []*kit.Ent
+	if c.Full {
+		inputs = all
+	}
+	if s := oneRun(inputs, nil); s != "" {
+		return s, ""
+	}
+	if !c.Full {
+		// reprocess from the start (Scheduler.ResetJob): same outputs, no new change
+		if err := h.Sched.ResetJob(id, ""); err != nil {
+			return "", fmt.Sprintf("ResetJob: %v", err)
+		}
+		if s := oneRun(all, nil); s != "" {
+			return s, ""
+		}
+	}
+	if s := copyCheck("at the end"); s != "" {
+		return s, ""
+	}
+	return "", ""
+}
+
+// exec journals, runs and records one case. fail is t.Fatalf of the caller.
+func (env *c10Env) exec(c c10Case, fail func(format string, args ...any)) {
+	f08, nt := c10Shape(c)
+	if f08 && kit.Known("F08") {
+		kit.S().Exclude("F08: incremental batch of m entities with parallelism p where round(m/p)*p < m or (p-1)*round(m/p) > m")
+		return
+	}
+	kit.Journal(c)
+	problem, infra := env.run(c)
+	if infra != "" {
+		fail("VERIF-INFRA %s\ncase %s", infra, c10JSON(c))
+	}
+	if problem != "" {
+		fail("C10 violated: %s\nVERIF-CASE-BEGIN\n%s\nVERIF-CASE-END", problem, c10JSON(c))
+	}
+	kit.JournalDone()
+	jt := "incremental"
+	if c.Full {
+		jt = "fullsync"
+	}
+	cls := []string{"kind:" + c.Kind, "type:" + jt}
+	if c.K > 0 {
+		cls = append(cls, "second-wave")
+	}
+	if c.Batch > 0 && c.Batch < c.N {
+		cls = append(cls, "multi-batch")
+	}
+	if !c.Full && c.P > 1 && c.N%c.P != 0 {
+		cls = append(cls, "count-not-multiple-of-p")
+	}
+	kit.S().Case(c, nt, cls...)
+}
+
+func c10JSON(c c10Case) string {
+	b, _ := json.Marshal(c)
+	return string(b)
+}
+
+func c10Replay(t *testing.T) *c10Case {
+	p := os.Getenv("VERIF_REPLAY_CASE")
+	if p == "" {
+		return nil
+	}
+	b, err := os.ReadFile(p)
+	if err != nil {
+		t.Fatalf("VERIF-INFRA cannot read replay case: %v", err)
+	}
+	c := &c10Case{}
+	if err := json.Unmarshal(b, c); err != nil || c.Kind == "" {
+		t.Fatalf("VERIF-INFRA cannot parse replay case: %v", err)
+	}
+	return c
+}
+
+// TestVerif_C10: the exhaustive box. Every (m, p) with m in 1..48 entities in
+// one batch and parallelism p in 1..16, for every transform kind on the
+// incremental pipeline (where the batch is split), plus the fullsync pipeline
+// with a kind chosen by (m+p). Split over VERIF_SHARD/VERIF_SHARDS.
 func TestVerif_C10(t *testing.T) {
-	h := newVJHub(vjOpts{})
-	defer h.close()
+	defer kit.S().Flush()
+	defer kit.CleanupScratch()
+	env := newC10Env()
+	defer env.h.close()
+	if c := c10Replay(t); c != nil {
+		env.exec(*c, t.Fatalf)
+		return
+	}
+	shard, shards := kit.EnvInt("VERIF_SHARD", 0), kit.EnvInt("VERIF_SHARDS", 1)
+	maxM, maxP := kit.EnvInt("VERIF_C10_MAXM", 48), kit.EnvInt("VERIF_C10_MAXP", 16)
+	idx := 0
+	for m := 1; m <= maxM; m++ {
+		for p := 1; p <= maxP; p++ {
+			idx++
+			if idx%shards != shard {
+				continue
+			}
+			for _, kind := range c10Kinds {
+				env.exec(c10Case{N: m, P: p, Kind: kind}, t.Fatalf)
+			}
+			// two batches of m: the arithmetic depends on (m, p) only
+			env.exec(c10Case{N: 2 * m, Batch: m, P: p, Kind: "stamp"}, t.Fatalf)
+			env.exec(c10Case{N: m, P: p, Full: true, Kind: c10Kinds[(m+p)%len(c10Kinds)], LatestOnly: (m+p)%2 == 0}, t.Fatalf)
+		}
+	}
+}
+
+// TestVerif_C10_sampled: larger sampled cases.
+func TestVerif_C10_sampled(t *testing.T) {
+	defer kit.S().Flush()
+	defer kit.CleanupScratch()
+	if os.Getenv("VERIF_REPLAY_CASE") != "" {
+		return // replayed by TestVerif_C10
+	}
+	env := newC10Env()
+	defer env.h.close()
+	rapid.Check(t, func(t *rapid.T) {
+		c := c10Case{
+			N:    rapid.IntRange(1, 300).Draw(t, "n"),
+			P:    rapid.IntRange(1, 32).Draw(t, "p"),
+			Kind: rapid.SampledFrom(c10Kinds).Draw(t, "kind"),
+			Full: rapid.IntRange(0, 3).Draw(t, "full") == 0,
+		}
+		switch rapid.IntRange(0, 3).Draw(t, "batchMode") {
+		case 0: // default batch size
+		case 1:
+			c.Batch = rapid.IntRange(1, c.N+5).Draw(t, "batch")
+		default: // batches around the parallelism: many chunked batches per run
+			c.Batch = rapid.IntRange(c.P, 3*c.P+3).Draw(t, "batch")
+			if c.N/c.Batch > 40 {
+				c.Batch = c.N/40 + 1
+			}
+		}
+		c.LatestOnly = rapid.Bool().Draw(t, "latestOnly")
+		if rapid.Bool().Draw(t, "wave2") {
+			c.K = rapid.IntRange(1, 40).Draw(t, "k")
+		}
+		if rapid.Bool().Draw(t, "chunkedWrite") {
+			c.WriteChunk = rapid.IntRange(1, 50).Draw(t, "writeChunk")
+		}
+		env.exec(c, t.Fatalf)
+	})
+}
+
+// TestVerifProbe_F08: minimal cases of finding F08 (rounded chunk size): 4
+// entities with parallelism 3 lose the last entity; 15 entities with
+// parallelism 10 panic with a negative slice length.
+func TestVerifProbe_F08(t *testing.T) {
+	defer kit.CleanupScratch()
+	env := newC10Env()
+	defer env.h.close()
+	for _, c := range []c10Case{
+		{N: 4, P: 3, Kind: "stamp"},
+		{N: 7, P: 3, Kind: "identity"},
+		{N: 15, P: 10, Kind: "stamp"},
+		{N: 10, P: 7, Kind: "dup"},
+	} {
+		problem, infra := env.run(c)
+		if infra != "" {
+			t.Fatalf("VERIF-INFRA %s", infra)
+		}
+		if problem != "" {
+			t.Fatalf("F08 present: case %s: %s", c10JSON(c), problem)
+		}
+	}
 }
